@@ -46,7 +46,7 @@ def plan(tier, seed):
 
 
 def unit_timeout(tier):
-    return 400 if tier == "quick" else 900
+    return 120 if tier == "quick" else 900
 
 
 def floors(tier):
